@@ -106,6 +106,7 @@ type deferred struct {
 type loopCut struct {
 	variant string
 	entry   *State
+	failed  string // fault mode: "some dependency has failed" at the loop head
 }
 
 func (fr *Frame) copy() *Frame {
@@ -1595,6 +1596,12 @@ func (x *Exec) loopEntry(st *State, fr *Frame, lp *Loop, pv map[*ssa.Phi]Val) {
 		// no variant: termination is not established
 		x.oblige(st, fr, fmt.Sprintf("dec.%d.missing", lp.ordinal), "dec", "", "false", nil, map[string]string{"why": "loop has no decreases clause"})
 	}
+	if x.faulty {
+		cut.failed = "false"
+		if v, ok := st.ghost["failed:any"].(TV); ok {
+			cut.failed = v.E
+		}
+	}
 	fr.cutLoops[lp.ordinal] = cut
 	// smoke: invariants are satisfiable together with the path
 	x.smoke(st, fr, name+".inv")
@@ -1647,6 +1654,15 @@ func (x *Exec) loopBack(st *State, fr *Frame, lp *Loop, pv map[*ssa.Phi]Val) {
 				x.oblige(st, fr, fmt.Sprintf("inv.%d.%s.step", lp.ordinal, cl.Label), "inv.step", cl.Label, g, nil, nil)
 			}
 		}
+	}
+	if x.faulty && cut.failed != "" {
+		// fault mode: the failure flags are not havocked at the loop head, so no failure may be
+		// carried around the loop - an iteration in which a dependency failed has to leave it
+		now := "false"
+		if v, ok := st.ghost["failed:any"].(TV); ok {
+			now = v.E
+		}
+		x.oblige(st, fr, fmt.Sprintf("inv.%d.C15.nofail.step", lp.ordinal), "inv.step", "C15.nofail", tImp(now, cut.failed), nil, nil)
 	}
 	if cut.variant != "" {
 		var nv string
